@@ -378,6 +378,9 @@ pub struct Sim {
     /// anybody enters the kernel (default). Drivers that run the kernel thread themselves (C04:
     /// explicit consume steps) switch this off: entering does not consume anything then.
     pub sqpoll_auto: bool,
+    /// Fault injection: the next `io_uring_enter` WITHOUT GETEVENTS (a pure submit / wake-up call)
+    /// fails with this errno before doing anything.
+    pub fail_next_plain_enter: Option<i32>,
     pub dead: bool,
     /// `Ev::Close` has been logged (the ring descriptor was found closed by a later ring call).
     pub close_logged: bool,
@@ -391,6 +394,9 @@ unsafe impl Send for Sim {}
 const SQ_HEAD: usize = 0;
 const SQ_TAIL: usize = 64;
 const SQ_FLAGS: usize = 136;
+const SQ_CQ_OVERFLOW: u32 = 1 << 1;
+/// The submission index array (only used by rings set up WITHOUT IORING_SETUP_NO_SQARRAY).
+const SQ_ARRAY: usize = 1024;
 const CQ_HEAD: usize = 0;
 const CQ_TAIL: usize = 64;
 const CQ_CQES: usize = 192;
@@ -616,6 +622,14 @@ impl Sim {
     pub fn cq_tail(&self) -> u32 {
         self.a32(self.cq_ring, CQ_TAIL).load(Ordering::SeqCst)
     }
+    /// IORING_SQ_NEED_WAKEUP: the kernel thread of an SQPOLL ring says it went to sleep.
+    pub fn set_need_wakeup(&self, on: bool) {
+        if on {
+            self.a32(self.sq_ring, SQ_FLAGS).fetch_or(1, Ordering::SeqCst);
+        } else {
+            self.a32(self.sq_ring, SQ_FLAGS).fetch_and(!1, Ordering::SeqCst);
+        }
+    }
     pub fn set_sq_flags(&self, v: u32) {
         self.a32(self.sq_ring, SQ_FLAGS).store(v, Ordering::SeqCst);
     }
@@ -640,12 +654,24 @@ impl Sim {
     }
 
     /// Submissions published by the implementation and not yet consumed, oldest first.
+    /// Which entry of the submission array the kernel reads for queue position `pos` (K1): the
+    /// position itself with IORING_SETUP_NO_SQARRAY, else what the index array says.
+    fn sq_slot(&self, pos: u32) -> usize {
+        let direct = (pos & (self.sq_entries - 1)) as usize;
+        if self.flags & SETUP_NO_SQARRAY != 0 {
+            direct
+        } else {
+            let v = self.a32(self.sq_ring, SQ_ARRAY + 4 * direct).load(Ordering::SeqCst);
+            (v & (self.sq_entries - 1)) as usize
+        }
+    }
+
     pub fn pending_sqes(&self) -> Vec<Sqe> {
         let mut out = Vec::new();
         let mut h = self.sq_head();
         let t = self.sq_tail();
         while h != t && out.len() < self.sq_entries as usize {
-            let idx = (h & (self.sq_entries - 1)) as usize;
+            let idx = self.sq_slot(h);
             out.push(unsafe { self.sqes.add(idx).read_volatile() });
             h = h.wrapping_add(1);
         }
@@ -679,6 +705,8 @@ impl Sim {
     pub fn post(&mut self, cqe: Cqe) {
         if !self.overflow.is_empty() || self.cq_ready() >= self.cq_entries {
             self.overflow.push_back(cqe);
+            // As Linux does: IORING_SQ_CQ_OVERFLOW in the SQ flags while the list is not empty.
+            self.a32(self.sq_ring, SQ_FLAGS).fetch_or(SQ_CQ_OVERFLOW, Ordering::SeqCst);
             self.log.push(Ev::Posted { cqe, overflow: true });
             return;
         }
@@ -698,6 +726,9 @@ impl Sim {
         while !self.overflow.is_empty() && self.cq_ready() < self.cq_entries {
             let cqe = self.overflow.pop_front().unwrap();
             self.post_now(cqe);
+        }
+        if self.overflow.is_empty() && !self.sq_ring.is_null() {
+            self.a32(self.sq_ring, SQ_FLAGS).fetch_and(!SQ_CQ_OVERFLOW, Ordering::SeqCst);
         }
     }
 
@@ -777,7 +808,7 @@ impl Sim {
             if head == tail {
                 break;
             }
-            let idx = (head & (self.sq_entries - 1)) as usize;
+            let idx = self.sq_slot(head);
             let sqe = unsafe { self.sqes.add(idx).read_volatile() };
             self.a32(self.sq_ring, SQ_HEAD).store(head.wrapping_add(1), Ordering::SeqCst);
             self.sq_ghost_head += 1;
@@ -961,7 +992,9 @@ unsafe fn hook_setup(entries: c_uint, p: *mut c_void) -> Option<c_int> {
         ring_entries: 260,
         flags: SQ_FLAGS as u32,
         dropped: 264,
-        array: 0,
+        // Without IORING_SETUP_NO_SQARRAY the kernel reads sqes[array[head & mask]]; the array
+        // starts zeroed and it is the application's job to fill it in.
+        array: if params.flags & SETUP_NO_SQARRAY != 0 { 0 } else { SQ_ARRAY as u32 },
         resv1: 0,
         user_addr: 0,
     };
@@ -1012,6 +1045,7 @@ unsafe fn hook_setup(entries: c_uint, p: *mut c_void) -> Option<c_int> {
         poison_free_slots: false,
         fail_next_enter: None,
         sqpoll_auto: true,
+        fail_next_plain_enter: None,
         dead: false,
         close_logged: false,
         pbuf_unregistered_after_free: Vec::new(),
@@ -1056,6 +1090,12 @@ unsafe fn hook_enter(
         if !sim.enabled {
             sim.log.push(Ev::Enter { to_submit, min_complete, flags, timeout, res: -libc::EBADFD });
             return err(libc::EBADFD);
+        }
+        if flags & ENTER_GETEVENTS == 0 {
+            if let Some(e) = sim.fail_next_plain_enter.take() {
+                sim.log.push(Ev::Enter { to_submit, min_complete, flags, timeout, res: -e });
+                return err(e);
+            }
         }
         submitted = if sim.flags & SETUP_SQPOLL != 0 {
             // The kernel thread has taken whatever was published.
